@@ -83,6 +83,17 @@ def lookalike_jobs():
            ["union", [["int"], ["uuid"]], {"sp": "typing"}]]
     jobs.append({"prog": {"classes": [], "aliases": {}},
                  "ops": [{"op": "um", "ty": ts, "val": s_, "obs": ["carriers"]} for ts in tys for s_ in sized]})
+    # enum members whose str value reads as JSON / a literal of another type: found from the text itself, in every carrier
+    def en(cid, name, members):
+        return {"id": cid, "name": name, "qualname": name, "module": "vm_c14_enum", "kind": "enum", "mixin": "none",
+                "members": [[f"m{i}", v] for i, v in enumerate(members)], "fields": [], "required": [], "defaults": []}
+    eprog = {"classes": [en(0, "Version", ["1", "3.14", "true", "null", "1,2", "stable", "v1.2", "[1]"]), en(1, "Level", [1, 2, 10])], "aliases": {}}
+    eops = [{"op": "um", "ty": ts, "val": s_, "obs": ["carriers"]}
+            for ts in (["enum", 0], ["union", [["enum", 0], ["none"]], {"sp": "optional"}], ["coll", "list", ["enum", 0], {"sp": "builtin"}])
+            for s_ in ("1", "3.14", "true", "null", "1,2", "stable", "v1.2", "[1]", "nope")]
+    eops = [dict(o, val=(o["val"] if o["ty"][0] != "coll" else json.dumps([o["val"]]))) for o in eops]
+    eops += [{"op": "um", "ty": ["enum", 1], "val": s_, "obs": ["carriers"]} for s_ in ("1", "2", "10", "3", "1.0")]
+    jobs.append({"prog": eprog, "ops": eops})
     return jobs
 
 
